@@ -119,6 +119,18 @@ def gen_case(seed, tier, index=0):
         if t == "nolicence-holders-only":
             opts["licenses"] = []
             t = "nolicence"
+            # next to a file that has a licence to lose, a twin of the same type with the same notice and no licence:
+            # the two render to the same header text, one must fail and the other succeed, in whichever order they come
+            for m in list(metas):
+                if m["kind"] == "styled" and m.get("existing_lic") and not m.get("sibling") and rng.chance(0.7):
+                    d, base = m["path"].rsplit("/", 1)
+                    twin = f"{d}/twin-{base}" if "." in base else None
+                    if twin is None:
+                        continue
+                    st = m["style"]
+                    files.append({"path": twin, "content": G.comment(st, "SPDX-FileCopyrightText: 2011 Old Holder", multi=not G.can_single(st))
+                                  + "\n\n" + G.body_for(st)})
+                    metas.append({"kind": "styled", "style": st, "path": twin, "existing_lic": False, "sibling": False})
         opts["template"] = t
         extra = A.template_files([t])
     if family == "usage":
